@@ -982,6 +982,125 @@ def _replay_family(f):
     return guarded(api_case, text, (None if ' flow ' in text else True) if text in HEADS else None, None, seconds=10) is None
 
 
+# ------------------------------------------------------------------------------------------------ cut short / unbalanced
+
+BLOCKS = [
+    'announce route 10.1.0.0/24 { next-hop 192.0.2.1; med 5; community [ 65000:1 65000:2 ]; }',
+    'announce route 10.2.0.0/24 next-hop 192.0.2.1 med 5',
+    'announce flow route { match { source 10.0.0.1/32; destination-port =80; } then { discard; } }',
+    'announce flow route { match { destination 10.0.0.0/24; protocol [ tcp udp ]; } then { rate-limit 9600; community [ 65000:1 ]; } }',
+    'announce flow route { rd 65000:1; match { source 10.0.0.1/32; } then { redirect 65000:12; } }',
+    'announce vpls endpoint 3 base 4 offset 5 size 8 next-hop 192.0.2.1 rd 65000:1',
+]
+
+
+def _tokens(text):
+    return re.findall(r'[{};]|[^\s{};]+', text)
+
+
+def _depth(tokens):
+    return sum(1 if t == '{' else -1 if t == '}' else 0 for t in tokens)
+
+
+def unbalanced_variants(text):
+    """every text made from `text` whose braces do not balance: cut after every token while a section is open, one closing
+    brace more after every closing brace / semicolon / at the end, one closing brace less"""
+    toks = _tokens(text)
+    out = []
+    for i in range(1, len(toks)):
+        if _depth(toks[:i]) > 0:
+            out.append(' '.join(toks[:i]))
+    for i, t in enumerate(toks):
+        if t in ('}', ';'):
+            out.append(' '.join(toks[: i + 1] + ['}'] + toks[i + 1 :]))
+        if t == '}':
+            out.append(' '.join(toks[:i] + toks[i + 1 :]))
+    if toks[-1] not in ('}', ';'):
+        out.append(text + ' ; }')
+        out.append(text + ' }')
+    seen, res = set(), []
+    for o in out:
+        if o not in seen and _depth(_tokens(o)) != 0:
+            seen.add(o)
+            res.append(o)
+    return res
+
+
+def unbalanced_api_case(text):
+    f0 = direct_entry(text)
+    if f0:
+        return f0
+    res = outcome(api_object(), text)
+    if res[0]:
+        return res[0]
+    if res[1][0] != 'error':
+        return {'what': 'a definition whose braces do not balance (cut short, or a closing brace with no section open) was accepted', 'input': {'text': text}, 'routes': list(res[1][1])}
+    return None
+
+
+def unbalanced_file_case(conf):
+    from exabgp.configuration.configuration import Configuration
+
+    inp = {'text': conf[-60:], 'configuration': conf}
+    c = Configuration([conf], text=True)
+    try:
+        ok = c.reload()
+    except Exception as e:  # noqa
+        return {'what': f'configuration answered with an unhandled {type(e).__name__}: {str(e)[:120]}', 'input': inp}
+    if ok:
+        routes = [r.extensive() for nb in c.neighbors.values() for r in nb.routes]
+        return {'what': 'a configuration file whose braces do not balance (cut short, or a closing brace with no section open) was loaded', 'input': inp, 'routes': routes[:6], 'neighbors': len(c.neighbors)}
+    if not str(c.error).strip():
+        return {'what': 'configuration refused without an error message', 'input': inp}
+    return None
+
+
+@bounded('C18', 'cut-short-and-unbalanced')
+def cut_short(tier, seed):
+    """PROPERTY: text offered as a definition is refused with an error message or accepted AND carries the values as written.
+    The configuration grammar closes every section it opens: a text whose braces do not balance is not a sentence of it --
+    a file cut short by a partial write, a helper's line cut by a bug -- and what was read so far is not what was written.
+    Oracle: braces unbalanced => refused (error reply and nothing handed to the RIB; reload False with a message)."""
+    fails, evals, distinct = [], 0, set()
+    texts = list(BLOCKS)
+    if tier != 'quick':
+        texts += [t for t, must, _ in api_cases() + extra_cases() if must is True and '{' in t][:60]
+    for text in texts:
+        for v in unbalanced_variants(text):
+            evals += 1
+            distinct.add(('api', v))
+            f = unbalanced_api_case(v)
+            if f:
+                f['path'] = 'api'
+                fails.append(f)
+    frags = [to_conf(t) for t in texts]
+    confs = [CONF % ' '.join(f for f in frags[:6] if f)] + ([CONF % f for f in frags[6:] if f] if tier != 'quick' else [])
+    for conf in confs:
+        for v in unbalanced_variants(conf):
+            evals += 1
+            distinct.add(('file', v))
+            f = unbalanced_file_case(v)
+            if f:
+                f['path'] = 'file'
+                fails.append(f)
+    fails.sort(key=lambda f: len(f['input']['text']))
+    return {
+        'evaluations': evals,
+        'distinct_nontrivial': len(distinct),
+        'bound': f'{len(texts)} API definitions (route one-line and block, flow with 1-2 components and actions and rd, vpls) and {len(confs)} configuration file(s) holding their file forms x every cut after a token while a section is open, one closing brace more after every closing brace / semicolon, one closing brace less',
+        'rule': 'one case = (path, text); distinct by value; only texts whose braces do NOT balance are generated',
+        'samples': [{'text': 'announce flow route { match { source 10.0.0.1/32'}, {'text': 'announce route 10.2.0.0/24 next-hop 192.0.2.1 med 5 ; }'}],
+        'failures': fails,
+    }
+
+
+@replayer('C18', 'cut-short-and-unbalanced')
+def _replay_cut(f):
+    if f.get('path') == 'file':
+        return unbalanced_file_case(f['input']['configuration']) is None
+    return unbalanced_api_case(f['input']['text']) is None
+
+
 @bounded('C18', 'api-and-file')
 def api_and_file(tier, seed):
     fails, evals, distinct, samples = [], 0, set(), []
